@@ -122,7 +122,10 @@ class ConvertDict(ClientContract):
 
     def samples(self, tier):
         m = L._build_model({"a": 1})
-        return [dict(dict_=d) for d in ({}, {"a": 1, "b": L.BM.UNSET, "c": None}, {"m": m, "l": [m, 2], "u": L.BM.UNSET})]
+        # plain dicts below the top level are passed on as they are (same request from all four clients)
+        return [dict(dict_=d) for d in ({}, {"a": 1, "b": L.BM.UNSET, "c": None}, {"m": m, "l": [m, 2], "u": L.BM.UNSET},
+                                        {"d": {"k": 1, "n": None}, "x": 2}, {"d": {"inner": {"k": [1, 2]}}, "l": [{"k": 1}]},
+                                        {"d": {"m": m, "u": L.BM.UNSET}, "x": 1})]
 
 
 class ExecuteJson(ClientContract):
